@@ -8,6 +8,9 @@ NOTE_COMMON = ("trusted base: go/ssa front end, the gosym interpreter (validated
                "z3 5.1 (cross-checked by z3 4.8.12 in the thorough tier); bounds as stated in the evidence file; ")
 
 CLAIMED = {
+ "C12": dict(
+   text="EncodeDump/DecodeDump round trip for String/List/Set/Hash/ZSet with symbolic contents (one fully symbolic string per value so that integer-looking strings are inside, every float64 bit pattern as score), integer-looking strings of <= 3 symbolic bytes plus int8/16/32 edge literals, compact encodings built by reference writers (ziplist list/hash/zset with every entry encoding, intset widths, zipmap, quicklist, integer strings, LZF) decoded by the in-repo cupcake decoder to the expected logical value, whole-file encoder -> loader -> ObjEntry round trip with verifying footer, entry conversions, 6/14-bit length boundary",
+   note=NOTE_COMMON + "FormatFloat/ParseFloat round trip is a trusted axiom (scores travel as an opaque text term that remembers its source); zset score texts inside ziplists from a concrete list; payload CRCs built with the linked crc64 over the same terms"),
  "C13": dict(
    text="every row of the tool's real command table x arities 1..5 (thorough 1..8) x black/white lists: each argument and prefix is a symbolic byte, so every combination of passing/non-passing keys is a solver-decided path; the rewritten argv is compared with the Redis key-position specification",
    note=NOTE_COMMON + "one-byte arguments and prefixes; Redis' (first,last,step) table is hard-coded on the specification side"),
